@@ -22,6 +22,8 @@ import (
 	"github.com/ethereum/go-ethereum/core/types"
 	"github.com/ethereum/go-ethereum/crypto"
 
+	"github.com/shutter-network/rolling-shutter/rolling-shutter/keyperimpl/shutterservice"
+
 	"verif/harness/fakechain"
 	"verif/harness/hx"
 	"verif/harness/pgfake"
@@ -101,12 +103,26 @@ func eventLog(w *syncrig.World, kind syncrig.Kind, i int, expiry uint64) types.L
 	case syncrig.Registry:
 		return w.IdentityRegisteredLog(uint64(1+i%2), h32(name), addrOf("sender"+name), uint64(1000+i))
 	case syncrig.MultiEvent:
-		def := syncrig.TriggerDefinition(watched, syncrig.TopicEq(0, h32(fmt.Sprintf("t%d", i))))
-		return w.EventTriggerRegisteredLog(uint64(1+i%2), h32(name), addrOf("sender"+name), def, expiry)
+		// keys from 1000 on are twins: the trigger of key i-1000 (same prefix, sender and definition, hence the same
+		// identity) registered for the other keyper set
+		base := i % 1000
+		name = fmt.Sprintf("ev%d", base)
+		preds := []syncrig.Pred{syncrig.TopicEq(0, h32(fmt.Sprintf("t%d", base)))}
+		if numericTopic(base) {
+			// every third definition also wants the second topic, read as a number, to be at least 1000
+			preds = append(preds, syncrig.Pred{Offset: 1, Op: shutterservice.UintGte, Int: big.NewInt(1000)})
+		}
+		eon := uint64(1 + base%2)
+		if i >= 1000 {
+			eon = uint64(1 + (base+1)%2)
+		}
+		return w.EventTriggerRegisteredLog(eon, h32(name), addrOf("sender"+name), syncrig.TriggerDefinition(watched, preds...), expiry)
 	default:
 		return w.TransactionSubmittedLog(uint64(1+i%2), uint64(i), h32(name), addrOf("sender"+name), []byte(name), big.NewInt(int64(21000+i)))
 	}
 }
+
+func numericTopic(base int) bool { return base%3 == 2 }
 
 type world struct {
 	w      *syncrig.World
@@ -144,10 +160,37 @@ func check(w *syncrig.World) (c15, c16 string) {
 	if w.Kind == syncrig.MultiEvent && c15 == "" {
 		gf, wf := syncrig.FiredText(st.Fired), syncrig.FiredText(w.ExpectedFired(uint64(st.SyncedNumber), nil))
 		if gf != wf {
-			c16 = fmt.Sprintf("at position %d the fired triggers differ from the chain's (first matching log after the registration block and not after expiry): recorded [%s] chain [%s]", st.SyncedNumber, short(gf), short(wf))
+			c16 = fmt.Sprintf("at position %d the fired triggers differ from the chain's (first matching log after the registration block and not after expiry): %s; recorded [%s] chain [%s]", st.SyncedNumber, rowDiff(gf, wf), short(gf), short(wf))
 		}
 	}
 	return c15, c16
+}
+
+// rowDiff names the rows that are in one list only.
+func rowDiff(got, want string) string {
+	set := func(s string) map[string]bool {
+		m := map[string]bool{}
+		for _, r := range strings.Split(strings.Trim(s, "[]"), "; ") {
+			if r != "" {
+				m[r] = true
+			}
+		}
+		return m
+	}
+	g, w := set(got), set(want)
+	out := []string{}
+	for r := range g {
+		if !w[r] {
+			out = append(out, "recorded only: "+r)
+		}
+	}
+	for r := range w {
+		if !g[r] {
+			out = append(out, "chain only: "+r)
+		}
+	}
+	sort.Strings(out)
+	return strings.Join(out, " | ")
 }
 
 func short(s string) string {
@@ -192,9 +235,31 @@ func (r *runner) scenario(ctx context.Context, rnd *hx.Rand, kind syncrig.Kind) 
 			items := []string{}
 			if rnd.Chance(45) {
 				k := nextKey
-				if len(abandonedKeys) > 0 && rnd.Chance(35) { // the same key registered again on the other fork
+				twinOf := -1
+				if kind == syncrig.MultiEvent && rnd.Chance(25) {
+					// a pending trigger registered for the other keyper set as well, with an expiry of its own
+					pend := []int{}
+					for b := range trigs {
+						if _, has := trigs[b+1000]; b < 1000 && !has {
+							pend = append(pend, b)
+						}
+					}
+					sort.Ints(pend)
+					if len(pend) > 0 {
+						twinOf = pend[rnd.Intn(len(pend))]
+					}
+				}
+				if twinOf >= 0 {
+					k = twinOf + 1000
+				} else if len(abandonedKeys) > 0 && rnd.Chance(35) { // the same key registered again on the other fork
 					k = abandonedKeys[rnd.Intn(len(abandonedKeys))]
 					abandonedKeys = nil
+					if _, has := trigs[k]; has {
+						// registered on this side already (as a twin): a second registration of the same trigger on
+						// one chain is the subject of reRegistration below, not of these scenarios
+						k = nextKey
+						nextKey++
+					}
 				} else {
 					nextKey++
 				}
@@ -202,18 +267,27 @@ func (r *runner) scenario(ctx context.Context, rnd *hx.Rand, kind syncrig.Kind) 
 				trigs[k] = trig{num, expiry}
 				specs = append(specs, func(w *syncrig.World) types.Log { return eventLog(w, kind, k, expiry) })
 				texts = append(texts, fmt.Sprintf("register(%d,expiry=%d)", k, expiry))
-				items = append(items, fmt.Sprintf("R%d/%d/%d", k, expiry, k))
+				items = append(items, fmt.Sprintf("R%d/%d/%d", k, expiry, k%1000))
 			}
 			if kind == syncrig.MultiEvent {
 				for k, t := range trigs {
 					k, t := k, t
 					// matching logs at every relative offset: same block, next block, at expiry, after expiry
 					if num >= t.at && num <= t.expiry+1 && rnd.Chance(30) {
-						specs = append(specs, func(w *syncrig.World) types.Log {
-							return w.PlainLog(watched, []common.Hash{h32(fmt.Sprintf("t%d", k))}, []byte{1})
-						})
-						texts = append(texts, fmt.Sprintf("log(t%d)", k))
-						items = append(items, fmt.Sprintf("L%d", k))
+						base := k % 1000
+						topics := []common.Hash{h32(fmt.Sprintf("t%d", base))}
+						it, tx := fmt.Sprintf("L%d", base), fmt.Sprintf("log(t%d)", base)
+						if numericTopic(base) {
+							v := []int64{999, 1000, 5000}[rnd.Intn(3)]
+							topics = append(topics, common.BigToHash(big.NewInt(v)))
+							tx = fmt.Sprintf("log(t%d,%d)", base, v)
+							if v < 1000 { // passes the node's filter, does not match the definition
+								it = "Lx"
+							}
+						}
+						specs = append(specs, func(w *syncrig.World) types.Log { return w.PlainLog(watched, topics, []byte{1}) })
+						texts = append(texts, tx)
+						items = append(items, it)
 					}
 				}
 				if rnd.Chance(20) {
@@ -493,6 +567,88 @@ func (r *runner) scenario(ctx context.Context, rnd *hx.Rand, kind syncrig.Kind) 
 	return nil
 }
 
+// reRegistration: a trigger is registered, (mostly) fires, and is registered again later on the same chain — the
+// registry contract lets its owner do that at any time, e.g. to prolong a trigger — and then a reorg within the
+// assumed depth replaces the block of the second registration. The first registration and the firing stay
+// canonical throughout.
+func (r *runner) reRegistration(ctx context.Context, rnd *hx.Rand) error {
+	kind := syncrig.MultiEvent
+	opts := syncrig.Opts{AssumedReorgDepth: 3, MaxRange: []uint64{1, 3, 100}[rnd.Intn(3)]}
+	x, err := newWorld(ctx, kind, opts)
+	if err != nil {
+		return err
+	}
+	defer x.w.Close()
+	hist := []string{fmt.Sprintf("%s sync-start=0 depth=%d max-range=%d (a trigger registered twice on one chain)", kind, x.w.AssumedReorgDepth(), x.w.MaxRange())}
+	fires := rnd.Chance(70)
+	again := rnd.Chance(50) // the new side registers it once more as well
+	gap := 1 + rnd.Intn(3)
+	tip, tipSalt := x.w.Chain.Genesis(), uint64(0)
+	add := func(salt uint64, text string, logs func(w *syncrig.World) []types.Log) {
+		op := buildOp{parentNum: tip.Number(), parentSalt: tipSalt, salt: salt, logs: logs,
+			text: fmt.Sprintf("block %d/%d parent=%d/%d logs=%s", tip.Number()+1, salt, tip.Number(), tipSalt, text)}
+		tip, tipSalt = x.apply(op), salt
+		hist = append(hist, op.text)
+	}
+	none := func(w *syncrig.World) []types.Log { return nil }
+	reg := func(expiry uint64) func(w *syncrig.World) []types.Log {
+		return func(w *syncrig.World) []types.Log { return []types.Log{eventLog(w, kind, 0, expiry)} }
+	}
+	match := func(w *syncrig.World) []types.Log {
+		return []types.Log{w.PlainLog(watched, []common.Hash{h32("t0")}, []byte{1})}
+	}
+	add(0, "register(0,expiry=40)", reg(40))
+	if fires {
+		add(0, "log(t0)", match)
+	}
+	for i := 0; i < gap; i++ {
+		add(0, "", none)
+	}
+	common, commonSalt := tip, tipSalt
+	add(0, "register(0,expiry=60)", reg(60))
+	add(0, "", none)
+	sync := func(note string) bool {
+		err := x.w.Sync(ctx, tip)
+		r.res.Evaluations++
+		hist = append(hist, fmt.Sprintf("sync %d/%d%s err=%v", tip.Number(), tipSalt, note, err))
+		c15, c16 := check(x.w)
+		what := ""
+		if r.cfg.Prop == "C15" {
+			what = c15
+		} else {
+			what = c16
+		}
+		if what != "" {
+			r.violateOnce("reregistered-trigger-rolled-back", "a trigger registered a second time on the same chain, then a reorg that replaces the block of the second registration only: "+what, hist)
+			return false
+		}
+		return true
+	}
+	if !sync("") {
+		return nil
+	}
+	// the other side of the fork: from the block before the second registration, one block longer
+	tip, tipSalt = common, commonSalt
+	if again {
+		add(1, "register(0,expiry=50)", reg(50))
+	} else {
+		add(1, "", none)
+	}
+	add(1, "", none)
+	add(1, "", none)
+	hist = append(hist, "fork: the block of the second registration is replaced")
+	r.res.Count("reregistration-scenarios")
+	if !sync(" (new fork, one past the position)") {
+		return nil
+	}
+	if !fires {
+		// the trigger is still pending under its canonical registration: a matching log now fires it
+		add(1, "log(t0)", match)
+		sync("")
+	}
+	return nil
+}
+
 // Run is the C15 / C16 check.
 func Run(cfg Config) (int, error) {
 	res := hx.NewResult(cfg.Prop, cfg.Seed, cfg.Tier)
@@ -519,6 +675,12 @@ func Run(cfg Config) (int, error) {
 			if err := r.scenario(ctx, rnd.Fork(), kind); err != nil {
 				return 2, err
 			}
+		}
+	}
+	// the second registration of one trigger on one chain (what the scenarios above leave out)
+	for sc := 0; sc < 12 && !r.stop; sc++ {
+		if err := r.reRegistration(ctx, rnd.Fork()); err != nil {
+			return 2, err
 		}
 	}
 	lines := []string{}
@@ -585,7 +747,11 @@ func firedModelText(rows []syncrig.FiredRow, nkeys int) string {
 	type fr struct{ k, b, l int64 }
 	out := []fr{}
 	for _, r := range rows {
-		out = append(out, fr{int64(keyOf[string(r.IdentityPrefix)]), r.BlockNumber, r.LogIndex})
+		k := keyOf[string(r.IdentityPrefix)]
+		if r.Eon != int64(1+k%2) { // the twin: the same trigger registered for the other keyper set
+			k += 1000
+		}
+		out = append(out, fr{int64(k), r.BlockNumber, r.LogIndex})
 	}
 	sort.Slice(out, func(i, j int) bool { return out[i].k < out[j].k })
 	parts := []string{}
